@@ -7,6 +7,7 @@ function values/gradients, KKT residual, optimum) are written here with plain nu
 import contextlib
 import io
 import math
+import threading
 
 import numpy as np
 from hypothesis import strategies as st
@@ -520,6 +521,26 @@ def run_mma(case, prob, rec):
     rec["final"] = [np.array(s.state, dtype=float).copy() for s in variables]
 
 
+
+def _in_thread(fn, *args):
+    """Run fn in a fresh thread: pyMOTO calls inspect.stack() for every Signal/Module it constructs, whose cost is
+    proportional to the stack depth (40 ms under Hypothesis' deep stack). Results are identical; exceptions re-raised."""
+    box = {}
+
+    def target():
+        try:
+            box["r"] = fn(*args)
+        except BaseException as e:  # re-raised in the caller below
+            box["e"] = e
+
+    t = threading.Thread(target=target)
+    t.start()
+    t.join()
+    if "e" in box:
+        raise box["e"]
+    return box.get("r")
+
+
 def check_case(case, _debug=None):
     prob = build_problem(case)
     n, k, m = prob["n"], prob["k"], len(prob["f"]) - 1
@@ -536,14 +557,14 @@ def check_case(case, _debug=None):
     V = []
     seen = set()
 
-    def bad(bucket, detail):
+    def bad(bucket, detail, **extra):
         if bucket not in seen:  # one report per bucket and case
             seen.add(bucket)
-            V.append(viol(f"C10:{bucket}", detail))
+            V.append(viol(f"C10:{bucket}", detail, **extra))
 
     rec = {"cb": [], "calls": []}
     try:
-        run_mma(case, prob, rec)
+        _in_thread(run_mma, case, prob, rec)
     except Exception as e:
         import traceback
         tb = traceback.extract_tb(e.__traceback__)
@@ -656,9 +677,12 @@ def check_case(case, _debug=None):
                                call["a0"], call["a"], b, call["c"], call["d"])
         worst["kkt"] = max(worst["kkt"], res / req_eps)
         if not res <= 20 * req_eps:
-            info_gaveup = call.get("gave_up", False)
-            bad("solution:kkt_residual:" + ("solver_hit_iteration_cap" if info_gaveup else "silent"), f"call {ci}: own KKT residual {res:.3e} > 20*epsimin*sqrt(m+n)={20 * req_eps:.3e} "
-                                         f"(n={n}, m={m}, version {case['version']})")
+            # two root causes are kept apart: the solver's own Newton loop ran into its iteration cap (it prints
+            # "MMA Subsolver: itt = ..." and returns the unconverged point) / the point is returned as converged
+            gave_up = bool(call.get("gave_up", False))
+            bad("solution:kkt_residual:" + ("solver_hit_iteration_cap" if gave_up else "silent"),
+                f"call {ci}: own KKT residual {res:.3e} > 20*epsimin*sqrt(m+n)={20 * req_eps:.3e} (n={n}, m={m}, "
+                f"version {case['version']}, epsimin={case['epsimin']})", sig={"gave_up": gave_up})
     # ---- end of run
     opt = oracle_optimum(prob)
     xF = X[-1] if X[-1].shape == (n,) else None
@@ -682,9 +706,7 @@ def check_case(case, _debug=None):
         if soft:
             labels.append("soft_constraints")
         if claim:
-            labels.append("convergence_claimed")
-            # filled in after calibration (see below)
-            _end_of_run(case, prob, opt, xF, info, bad)
+            _end_of_run(case, prob, opt, xF, info, bad, labels)
         else:
             labels.append("convergence_not_claimed")
     if _debug is not None:
@@ -692,8 +714,31 @@ def check_case(case, _debug=None):
     return labels, V
 
 
-MMA_C = np.array([1000.0])  # default cCoef
+MMA_C = np.array([1000.0])  # default cCoef: the elastic variables y_i cost c_i y_i, exact penalty needs lam_i < c_i
+# End-of-run thresholds. MMA (no globalisation) has an oscillation floor of about asybound^-2 = 0.01 of the range for
+# coordinates whose optimum is interior, and it may zig-zag on non-separable objectives; measured on the unchanged
+# tree over ~1000 claimed runs: reciprocal objective max 2.3e-4, diagonal quadratic max 1.04e-2 (sharp cut-off),
+# log-sum-exp up to 0.08 (2007) / 0.39 (1987) -> no distance claim for log-sum-exp. Constraint values at the final
+# iterate: max +4.6e-5 (constraints are scaled to a range of 0.3..10 over the box).
+CONV_DIST = {"recip": 5e-3, "quad": 5e-2}
+CONV_FEAS = 1e-3
 
 
-def _end_of_run(case, prob, opt, xF, info, bad):
-    pass
+def _end_of_run(case, prob, opt, xF, info, bad, labels):
+    f = prob["f"]
+    gF = [fi.val(xF) for fi in f[1:]]
+    labels.append("feasibility_claimed")
+    if max(gF) > CONV_FEAS:
+        i = int(np.argmax(gF))
+        bad("end:constraint_violated", f"after {info['niter']} iterations constraint {i + 1} = {gF[i]:.3e} > {CONV_FEAS} "
+                                       f"(oracle optimum is feasible with multipliers {opt['lam']})")
+    lim = CONV_DIST.get(case["obj"])
+    if lim is None or not opt["unique"]:
+        labels.append("distance_not_claimed")
+        return
+    labels.append("convergence_claimed")
+    if info["dF"] > lim:
+        bad(f"end:not_converged:{case['obj']}", f"after {info['niter']} iterations max |x - x*|/(xmax-xmin) = {info['dF']:.3e} > "
+                                                 f"{lim} (start: {info['d0']:.3e}; version {case['version']}, move {case['move']})")
+    elif info["d0"] >= 0.2 and not info["dF"] < info["d0"]:
+        bad(f"end:not_approaching:{case['obj']}", f"distance to the optimum {info['dF']:.3e} is not below the initial one {info['d0']:.3e}")
